@@ -152,6 +152,15 @@ def replay_std(ctx, doc, interner, opts, n):
     mapper = {colname(c): c["name"] for c in cols if c["old"]} if doc["opts"]["mapper"] else None
     rp = dict(kind="std", doc=doc, opts=opts, n=n)
     ctx.case(dict(fn="standardize_dataframe", cols=names, rows=doc["tab"], opts=doc["opts"], tt_opts=opts), nontrivial=len(doc["tab"]) > 0 and doc["opts"]["standardize"])
+    if mix(n + 77) % 3 == 0:
+        # history: the same table cleaned under OTHER options first (the result below may not depend on what the process did before)
+        other = OPTION_SETS[mix(n + 7) % len(OPTION_SETS)]
+        if other != opts:
+            try:
+                prs.standardize_dataframe(df.copy(deep=True), col_mapper=mapper, standardize=True, suppress_warnings=True, **other)
+            except Exception:      # noqa: BLE001
+                pass
+            rp["after_call_with"] = other
     try:
         got = prs.standardize_dataframe(df, col_mapper=mapper, standardize=doc["opts"]["standardize"], suppress_warnings=True, **opts)
     except Exception as e:      # noqa: BLE001
